@@ -38,8 +38,10 @@ type SerializeItems<T> = fn(&mut SketchBytes, &[T]);
 type DeserializeItems<T> = fn(SketchSlice<'_>, usize) -> Result<Vec<T>, Error>;
 
 const LG_MIN_MAP_SIZE: u8 = 3;
-/// Largest map the Java and C++ implementations can allocate (2^30 slots).
-const LG_MAX_MAP_SIZE: u8 = 30;
+/// Largest maximum map size `new` accepts (any power of two that fits a `usize`).
+const LG_MAX_MAP_SIZE: u8 = (usize::BITS - 1) as u8;
+/// Largest map an image may ask `deserialize` to allocate (2^30 slots, the Java/C++ limit).
+const LG_MAX_CUR_MAP_SIZE: u8 = 30;
 const SAMPLE_SIZE: usize = 1024;
 const EPSILON_FACTOR: f64 = 3.5;
 const LOAD_FACTOR_NUMERATOR: usize = 3;
@@ -213,7 +215,7 @@ impl<T: Eq + Hash> FrequentItemsSketch<T> {
     ///
     /// This is `0.75 * max_map_size`.
     pub fn maximum_map_capacity(&self) -> usize {
-        (1usize << self.lg_max_map_size) * LOAD_FACTOR_NUMERATOR / LOAD_FACTOR_DENOMINATOR
+        (1usize << self.lg_max_map_size) / LOAD_FACTOR_DENOMINATOR * LOAD_FACTOR_NUMERATOR
     }
 
     /// Returns the current map capacity.
@@ -399,7 +401,8 @@ impl<T: Eq + Hash> FrequentItemsSketch<T> {
         );
         let map = ReversePurgeItemHashMap::new(1usize << lg_cur);
         let cur_map_cap = map.capacity();
-        let max_map_cap = (1usize << lg_max) * LOAD_FACTOR_NUMERATOR / LOAD_FACTOR_DENOMINATOR;
+        // divide first: map sizes are powers of two >= 8, so this is exact and cannot overflow
+        let max_map_cap = (1usize << lg_max) / LOAD_FACTOR_DENOMINATOR * LOAD_FACTOR_NUMERATOR;
         let sample_size = SAMPLE_SIZE.min(max_map_cap);
         Self {
             lg_max_map_size: lg_max,
@@ -491,6 +494,11 @@ impl<T: Eq + Hash> FrequentItemsSketch<T> {
                 "lg_max_map_size must be at most {LG_MAX_MAP_SIZE}, got {lg_max}"
             )));
         }
+        if lg_cur > LG_MAX_CUR_MAP_SIZE {
+            return Err(Error::deserial(format!(
+                "lg_cur_map_size must be at most {LG_MAX_CUR_MAP_SIZE}, got {lg_cur}"
+            )));
+        }
 
         let is_empty = (flags & EMPTY_FLAG_MASK) != 0;
         if is_empty {
@@ -514,8 +522,9 @@ impl<T: Eq + Hash> FrequentItemsSketch<T> {
 
         // every active item has an 8-byte count in the image and a slot in the map
         if active_items > cursor.remaining() / 8
-            || active_items > (1usize << lg_cur.max(LG_MIN_MAP_SIZE)) * LOAD_FACTOR_NUMERATOR
-                / LOAD_FACTOR_DENOMINATOR
+            || active_items
+                > (1usize << lg_cur.max(LG_MIN_MAP_SIZE)) / LOAD_FACTOR_DENOMINATOR
+                    * LOAD_FACTOR_NUMERATOR
         {
             return Err(Error::deserial(format!(
                 "corrupted: {active_items} active items do not fit the image or the map"
